@@ -18,11 +18,9 @@ def scenarios(tier, seed):
     add([{"name": "", "class": "eq"}], False, "word")                   # F-11d: quoted positional value containing '='
     for c in CLASSES:
         for name in ["", "X"]:
-            if name == "" and c == "eq":
-                continue
             for at in [True, False]:
                 add([{"name": name, "class": c}], at, PAYLOADS[i % len(PAYLOADS)])
-    pairs = [(a, na, b, nb) for a in CLASSES for na in ["", "X"] for b in CLASSES for nb in ["", "Y"] if not (na == "" and a == "eq") and not (nb == "" and b == "eq")]
+    pairs = [(a, na, b, nb) for a in CLASSES for na in ["", "X"] for b in CLASSES for nb in ["", "Y"]]
     rnd.shuffle(pairs)
     for a, na, b, nb in pairs[:40 if tier == "quick" else 400]:
         add([{"name": na, "class": a}, {"name": nb, "class": b}], rnd.random() < 0.5, rnd.choice(PAYLOADS))
@@ -50,7 +48,7 @@ def run(prop, tier, seed, replay=None):
             # the same through the command layer of the real binary (start -p as the API's client spawns it, restart of the
             # running DAG, retry of the canceled run); without the two pinned scenarios of the open findings
             binary = vp.build_binary(os.path.join(work, "blackdagger"))
-            cli = [s for s in scs if not s["errNoise"] and not any(p["name"] == "" and p["class"] == "eq" for p in s["params"])]
+            cli = [s for s in scs if not s["errNoise"]]
             cli = cli[:70] if q else cli[:400]
             ncw = min(vp.NCPU, 8)
             for w in range(ncw):
